@@ -1,0 +1,48 @@
+//go:build verif
+// +build verif
+
+// Package c12 re-exports what the C12 harness needs from internal/plumbing and internal/core
+// (type aliases and constants only; nothing here changes behaviour).
+package c12
+
+import (
+	"gopkg.in/src-d/hercules.v10/internal/core"
+	"gopkg.in/src-d/hercules.v10/internal/plumbing"
+	"gopkg.in/src-d/hercules.v10/internal/plumbing/identity"
+)
+
+// LinesStatsCalculator is plumbing.LinesStatsCalculator.
+type LinesStatsCalculator = plumbing.LinesStatsCalculator
+
+// LineStats is plumbing.LineStats.
+type LineStats = plumbing.LineStats
+
+// FileDiffData is plumbing.FileDiffData.
+type FileDiffData = plumbing.FileDiffData
+
+// CachedBlob is plumbing.CachedBlob.
+type CachedBlob = plumbing.CachedBlob
+
+// PipelineItem is core.PipelineItem.
+type PipelineItem = core.PipelineItem
+
+// Pipeline is core.Pipeline.
+type Pipeline = core.Pipeline
+
+// Names of dependencies, facts and options.
+const (
+	DependencyLineStats    = plumbing.DependencyLineStats
+	DependencyLanguages    = plumbing.DependencyLanguages
+	DependencyTreeChanges  = plumbing.DependencyTreeChanges
+	DependencyBlobCache    = plumbing.DependencyBlobCache
+	DependencyFileDiff     = plumbing.DependencyFileDiff
+	DependencyTick         = plumbing.DependencyTick
+	DependencyAuthor       = identity.DependencyAuthor
+	DependencyCommit       = core.DependencyCommit
+	DependencyIndex        = core.DependencyIndex
+	DependencyIsMerge      = core.DependencyIsMerge
+	AuthorMissing          = identity.AuthorMissing
+	FactReversedPeopleDict = identity.FactIdentityDetectorReversedPeopleDict
+	// ConfigRenameAnalysisSimilarityThreshold is the option of plumbing.RenameAnalysis.
+	ConfigRenameAnalysisSimilarityThreshold = plumbing.ConfigRenameAnalysisSimilarityThreshold
+)
